@@ -287,6 +287,19 @@ impl Check for C10 {
         if !conn_domain_ok(&sc.first) || !matches!(c.intent, 2 | 3) || c.script.is_some() || !c.mutations.is_empty() || !matches!(c.enc, crate::client::EncVariant::Honest) || !c.send_info || c.auth_cookie.is_some() || !transport_is_zero_time(&sc.first) {
             return RunReport::default();
         }
+        // the first connection must be one that gets routed (the shrinker may take its targets away)
+        let ntargets = match &sc.first.services.discovery.default.res {
+            DiscRes::Targets(t) => t.len(),
+            _ => 0,
+        };
+        let pick_ok = match &sc.first.services.strategy.default.res {
+            StratRes::Index(i) => *i < ntargets,
+            StratRes::First => ntargets > 0,
+            _ => false,
+        };
+        if !pick_ok || !sc.first.services.discovery.calls.is_empty() || !sc.first.services.strategy.calls.is_empty() || !matches!(sc.first.services.filter.default.res, crate::services::FiltRes::Identity) || !matches!(sc.first.services.auth.default.res, AuthRes::Claim | AuthRes::Profile { .. }) {
+            return RunReport::default();
+        }
         let o1 = run_conn(&sc.first);
         let s2 = second_of(sc, &o1);
         let o2 = run_conn(&s2);
